@@ -5,6 +5,7 @@ import tempfile
 import warnings
 
 from mc.core import Res
+from mc import adapt as A
 from mc import keys as K
 from mc import recips as R
 
@@ -338,8 +339,8 @@ class Prop(object):
                 self._fail(r, kind, idx, case, detail)
         # ---- canonical state: model multiset + alias layout (identifier -> ordered key names per layer)
         byid = {}
-        for pkid, k in kr._keys.items():
+        for pkid, k in A.keyring_keys(kr).items():
             top = k.parent if k.parent is not None else k
             byid[pkid] = '%s%s%s' % (str(top.fingerprint)[-4:], 'p' if k.is_public else 's', '' if k.parent is None else '/' + str(k.fingerprint)[-4:])
-        layout = tuple(tuple(sorted((str(a), byid.get(p, '?')) for a, p in layer.items() if not str(a)[0].isdigit() or len(str(a)) != 40)) for layer in kr._aliases)
+        layout = tuple(tuple(sorted((str(a), byid.get(p, '?')) for a, p in layer.items() if not str(a)[0].isdigit() or len(str(a)) != 40)) for layer in A.keyring_aliases(kr))
         return repr((tuple(sorted((n, x is not None) for n, _f, _p, x in loaded)), layout))
